@@ -41,6 +41,10 @@ def run(ctx):
             configs.append(dict(z=r.choice([0.0, 0.5, 1.0, 2.0, 4.0]), sigma_8=r.uniform(0.6, 1.0), n=r.uniform(0.85, 1.05),
                                 cosmo_params=r.choice([{}, {"Om0": 0.25}, {"Om0": 0.4, "H0": 60.0}]), transfer_model=r.choice(["EH", "BBKS", "EH_NoBAO"]),
                                 lnk_min=r.choice([-12.0, -8.0, -5.0, -4.0]), lnk_max=r.choice([8.0, 6.0]), dlnk=r.choice([0.05, 0.1])))
+        # dark-energy models other than a cosmological constant (the formulae use w(z) and Omega_m(z) of the cosmology given)
+        from astropy.cosmology import FlatwCDM as _FwCDM
+        for w0_, z_ in ((-0.8, 0.0), (-1.2, 1.0)):
+            configs.insert(1, dict(z=z_, sigma_8=0.8, n=0.96, cosmo_model=_FwCDM(H0=68.0, Om0=0.3, w0=w0_, Ob0=0.048, Tcmb0=2.725), transfer_model="EH", growth_model="GrowthFactor", lnk_min=-8.0, lnk_max=6.0, dlnk=0.1))
         first_outputs = {}
         hyp_n = [0, 0]
         for ci, cfg in enumerate(configs):
@@ -93,8 +97,11 @@ def run(ctx):
                 if abs(s2 - 1) > 0.12:
                     viol("knl-condition", f"Gaussian-filtered variance at the non-linear scale is {s2:.3f}, expected 1 (solver tolerance ~10% in R)", {"config": str(cfg)})
             # switch changes the result
-            if (ci, True) in first_outputs and (ci, False) in first_outputs and np.allclose(first_outputs[(ci, True)], first_outputs[(ci, False)], rtol=1e-6):
-                viol("switch-inert", "the Takahashi switch does not change the non-linear spectrum")
+            if (ci, True) in first_outputs and (ci, False) in first_outputs:
+                a_, b_ = first_outputs[(ci, True)], first_outputs[(ci, False)]
+                # the two coefficient sets differ by tens of per cent to factors of a few beyond the non-linear scale, for every cosmology
+                if np.nanmax(np.abs(a_ / b_ - 1)) < 0.02:
+                    viol("switch-inert", f"the Takahashi switch hardly changes the non-linear spectrum (max rel. difference {float(np.nanmax(np.abs(a_ / b_ - 1))):.3g}; cosmology {cfg.get('cosmo_model', cfg.get('cosmo_params'))})", {"config": {kk: str(vv) for kk, vv in cfg.items()}})
             # framework quantity == direct call; nonlinear_power identity
             if (ci, True) in first_outputs or (ci, False) in first_outputs:
                 for tak in (True, False):
